@@ -216,7 +216,7 @@ type PyCase struct {
 	Chunk int `json:"chunk"`
 }
 
-const pyChunks = 8
+const pyChunks = 1
 
 func genPyCase(t *rapid.T) PyCase {
 	return PyCase{Chunk: rapid.IntRange(0, pyChunks-1).Draw(t, "chunk")}
